@@ -32,6 +32,7 @@ type Prog struct {
 	aliasCache *aliasInfo
 	discCache  []*Disc
 	ctxCache   *ctxInfo
+	liveCache  map[*ssa.Function]bool
 }
 
 // product packages per module (DESIGN.md §1). A missing one is a hard failure.
